@@ -63,7 +63,8 @@ def oracle(case):
         entry = case['entry']
         o = dict(api.DEFAULTS, remove_literal_statements=True, rename_globals=entry is not None)
         try:
-            got = python_minifier.awslambda(src, entrypoint=entry)
+            fn = case.get('filename')
+            got = python_minifier.awslambda(src, entrypoint=entry) if fn is None else python_minifier.awslambda(src, filename=fn, entrypoint=entry)
             want = api.minify(src, o, preserve_globals=[entry])
         except BaseException:
             return None
@@ -179,6 +180,8 @@ def cases(draw):
     mode = draw(st.sampled_from(['api', 'api', 'api', 'cli', 'awslambda']))
     c = {'source': src, 'opts': opts, 'pl': pl, 'pg': pg, 'mode': mode, 'features': prog.features}
     if mode == 'awslambda':
+        # the file name is only used for messages; whatever it is, the entrypoint is what is preserved
+        c['filename'] = draw(st.sampled_from([None, 'index.py', 'lambda_function.py', 'app.py', 'handler.py', 'helper_func.py', 'alpha_value.counter_total.py', '/var/task/result_list.py', 'x']))
         c['entry'] = draw(st.sampled_from(glob + [None, 'handler'])) if glob else None
     if mode == 'cli':
         def spell(lst):
